@@ -64,7 +64,7 @@ def cases(tier, rng):
 
 def search(tier, rng):
     yield J('p_rr_styled', 0, 0, 4, 20, *([1, 1] * 4), 5, 7, 3, 0)
-    # FINDINGS-C06.md (class K06_rrect_fill_outside_stroke): fill_area() point outside stroke_area()
+    # notes/findings/FINDINGS-C06.md (class K06_rrect_fill_outside_stroke): fill_area() point outside stroke_area()
     yield 'p_rr_styled 0 0 4 29 0 0 0 0 9 51 0 0 5 7 1 0'
     yield 'p_rr_styled -13 3 57 42 57 2 0 0 48 25 8 2 5 0 1 1'
     for g in grid(8, 4, 5) if tier != 'quick' else grid(6, 3, 4):
